@@ -15,6 +15,7 @@
 #include "base/namespace.hpp"
 #include "config/configitem.hpp"
 #include "config/expression.hpp"
+#include "config/configcompiler.hpp"
 #include "icinga/host.hpp"
 #include "icinga/service.hpp"
 #include "icinga/checkable.hpp"
@@ -898,10 +899,360 @@ VOP(pm_race)
 	Out(o.str());
 }
 
+// ---------------------------------------------------------------------------------------------------------------
+// round 6: WHO is the user, and WHICH permission list.
+//  (1) pm_auser / pm_uset / pm_urestore / pm_udel change ApiUser objects in the running process (creation through config text,
+//      ConfigObject::ModifyAttribute("permissions", ..) / RestoreAttribute as POST /v1/objects/apiusers/<name> does - via=http goes
+//      through the real ModifyObjectHandler - , removal from the registry); the user "pmuser" of pm_load is one of them.
+//  (2) pm_copen / pm_creq / pm_cclose: ONE real HttpServerConnection (its own io_context, run by a server thread) over a TLS
+//      session on a socketpair; the harness is the HTTP client (plain OpenSSL, hand-written HTTP/1.1) and sends several
+//      requests with different Authorization headers over the same connection.  Observed: status, names in `results`,
+//      whether the server ended the connection.  No log text.
+#include "base/base64.hpp"
+#include <openssl/ssl.h>
+#include <openssl/x509.h>
+#include <openssl/evp.h>
+#include <sys/socket.h>
+#include <sys/time.h>
+#include <signal.h>
+#include <cerrno>
+#include <unistd.h>
+
+namespace {
+
+std::vector<ApiUser::Ptr> l_AUsers;          // every additional ApiUser created in this case (registered or not)
+ApiUser::Ptr l_Root;                         // pmroot, permissions ["*"]: the administrator who changes other users over HTTP
+
+std::string PermsText(const std::string& perms, bool sig)
+{
+	std::ostringstream c;
+	c << "[\n";
+	for (auto& e : Split(perms, ';')) {
+		auto at = e.find('@');
+		if (at == std::string::npos)
+			c << "    " << Quote(HexDec(e)) << ",\n";
+		else if (at + 1 == e.size())
+			c << "    { permission = " << Quote(HexDec(e.substr(0, at))) << " },\n";
+		else
+			c << "    { permission = " << Quote(HexDec(e.substr(0, at))) << ", filter = {{ " << (sig ? "pm_sig(obj) && (" : "(") << FilterText(e.substr(at + 1)) << ") }} },\n";
+	}
+	c << "  ]";
+	return c.str();
+}
+
+void PmEnsureRoot()
+{
+	if (l_Root) return;
+	LoadConfig("object ApiUser \"pmroot\" {\n  password = \"pmroot-pw\"\n  permissions = [ \"*\" ]\n}\n");
+	l_Root = ApiUser::GetByName("pmroot");
+}
+
+struct PmConn {
+	int fd = -1;
+	SSL_CTX *ctx = nullptr;
+	SSL *ssl = nullptr;
+	bool clientOpen = false;
+	std::unique_ptr<boost::asio::io_context> io;
+	Shared<AsioTlsStream>::Ptr stream;
+	std::thread server;
+	std::string serverFailure;
+	std::mutex m;
+	std::condition_variable cv;
+	bool constructed = false;      // the HttpServerConnection exists (its constructor resolved the certificate's user) or the handshake failed
+};
+std::map<int, std::unique_ptr<PmConn>> l_Conns;
+
+boost::asio::ssl::context& PmServerCtx()
+{
+	static std::unique_ptr<boost::asio::ssl::context> ctx;
+	if (!ctx) {
+		ctx.reset(new boost::asio::ssl::context(boost::asio::ssl::context::tls_server));
+		EVP_PKEY *pkey = EVP_EC_gen("P-256");
+		X509 *x = X509_new();
+		ASN1_INTEGER_set(X509_get_serialNumber(x), 1);
+		X509_gmtime_adj(X509_getm_notBefore(x), -3600);
+		X509_gmtime_adj(X509_getm_notAfter(x), 365 * 24 * 3600L);
+		X509_set_pubkey(x, pkey);
+		X509_NAME *name = X509_get_subject_name(x);
+		X509_NAME_add_entry_by_txt(name, "CN", MBSTRING_ASC, (const unsigned char *)"vdrive-c18", -1, -1, 0);
+		X509_set_issuer_name(x, name);
+		X509_sign(x, pkey, EVP_sha256());
+		SSL_CTX_use_certificate(ctx->native_handle(), x);
+		SSL_CTX_use_PrivateKey(ctx->native_handle(), pkey);
+	}
+	return *ctx;
+}
+
+void PmCloseClient(PmConn& c)
+{
+	if (!c.clientOpen) return;
+	c.clientOpen = false;
+	SSL_shutdown(c.ssl);
+	::shutdown(c.fd, SHUT_WR);
+	char buf[256];
+	while (::read(c.fd, buf, sizeof buf) > 0) { }      // until the server side is gone (receive timeout bounds this)
+}
+
+void PmDestroyConn(PmConn& c)
+{
+	PmCloseClient(c);
+	if (c.server.joinable()) c.server.join();
+	if (c.ssl) SSL_free(c.ssl);
+	if (c.ctx) SSL_CTX_free(c.ctx);
+	if (c.fd >= 0) ::close(c.fd);
+	c.ssl = nullptr; c.ctx = nullptr; c.fd = -1;
+	c.stream = nullptr;
+}
+
+// reads one HTTP response; false = the connection ended before a complete response
+bool PmReadResponse(PmConn& c, int& code, bool& closeHdr, std::string& body)
+{
+	std::string buf;
+	char tmp[4096];
+	size_t hend;
+	while ((hend = buf.find("\r\n\r\n")) == std::string::npos) {
+		int n = SSL_read(c.ssl, tmp, sizeof tmp);
+		if (n <= 0) return false;
+		buf.append(tmp, n);
+	}
+	std::string head = buf.substr(0, hend + 2);
+	std::string lower = head;
+	std::transform(lower.begin(), lower.end(), lower.begin(), [](unsigned char ch) { return (char)tolower(ch); });
+	if (head.size() < 12 || head.compare(0, 5, "HTTP/") != 0) return false;
+	code = atoi(head.c_str() + 9);
+	closeHdr = lower.find("\r\nconnection: close\r\n") != std::string::npos;
+	size_t clen = 0;
+	size_t cl = lower.find("\r\ncontent-length:");
+	if (cl != std::string::npos) clen = (size_t)atol(lower.c_str() + cl + 17);
+	body = buf.substr(hend + 4);
+	while (body.size() < clen) {
+		int n = SSL_read(c.ssl, tmp, sizeof tmp);
+		if (n <= 0) return false;
+		body.append(tmp, n);
+	}
+	return true;
+}
+
+ApiUser::Ptr PmUserByName(const String& name)
+{
+	return ApiUser::GetByName(name);
+}
+
+} // namespace
+
+// pm_auser name=<hex> pass=<hex> [cn=<hex>] perms=<entries>|none   -> a new ApiUser object (not if the name is taken)
+VOP(pm_auser)
+{
+	InitOnce();
+	String name = HexDec(a.str("name"));
+	if (PmUserByName(name)) { Out("pm_auser created=0"); return; }
+	std::ostringstream c;
+	c << "object ApiUser " << Quote(name.GetData()) << " {\n  password = " << Quote(HexDec(a.str("pass", "-"))) << "\n";
+	if (a.has("cn")) c << "  client_cn = " << Quote(HexDec(a.str("cn"))) << "\n";
+	std::string perms = a.str("perms", "-");
+	if (perms != "none") c << "  permissions = " << PermsText(perms, false) << "\n";
+	c << "}\n";
+	LoadConfig(c.str());
+	ApiUser::Ptr u = PmUserByName(name);
+	if (!u) throw std::runtime_error("pm_auser: user not created");
+	l_AUsers.push_back(u);
+	if (name == "pmuser") l_User = u;            // the object the direct ops (pm_q, pm_http, ..) hand to the handlers from now on
+	Out("pm_auser created=1");
+}
+
+// pm_uset name=<hex> perms=<entries> [via=attr|http]: assign the `permissions` attribute of the registered user at runtime
+VOP(pm_uset)
+{
+	namespace http = boost::beast::http;
+	String name = HexDec(a.str("name"));
+	ApiUser::Ptr u = PmUserByName(name);
+	if (!u) { Out("pm_uset done=0"); return; }
+	std::string perms = a.str("perms", "-");
+	if (a.str("via", "attr") == "http") {
+		// POST /v1/objects/apiusers/<name> { attrs: { permissions: [ .. ] } } as pmroot (entries without filter only: JSON has no functions)
+		PmEnsureRoot();
+		ArrayData items;
+		for (auto& e : Split(perms, ';')) {
+			auto at = e.find('@');
+			if (at == std::string::npos) items.push_back(String(HexDec(e)));
+			else items.push_back(new Dictionary({ { "permission", String(HexDec(e.substr(0, at))) } }));
+		}
+		Dictionary::Ptr body = new Dictionary({ { "attrs", new Dictionary({ { "permissions", new Array(std::move(items)) } }) } });
+		http::response<http::string_body> response;
+		ApiUser::Ptr saved = l_User;
+		l_User = l_Root;
+		try { PmRunHttp(http::verb::post, "/v1/objects/apiusers/" + UrlEnc(name.GetData()), body, response); } catch (...) { l_User = saved; throw; }
+		l_User = saved;
+		if (response.result_int() != 200) throw std::runtime_error("pm_uset via=http: status " + std::to_string(response.result_int()) + " " + response.body());
+	} else {
+		std::unique_ptr<Expression> expr = ConfigCompiler::CompileText("<pm_uset>", PermsText(perms, l_Sig));
+		ScriptFrame frame(true);
+		Value v = expr->Evaluate(frame);
+		u->ModifyAttribute("permissions", v);
+	}
+	Out("pm_uset done=1");
+}
+
+// pm_urestore name=<hex> [via=attr|http]: RestoreAttribute("permissions")
+VOP(pm_urestore)
+{
+	namespace http = boost::beast::http;
+	String name = HexDec(a.str("name"));
+	ApiUser::Ptr u = PmUserByName(name);
+	if (!u) { Out("pm_urestore done=0"); return; }
+	if (a.str("via", "attr") == "http") {
+		PmEnsureRoot();
+		Dictionary::Ptr body = new Dictionary({ { "restore_attrs", new Array({ String("permissions") }) } });
+		http::response<http::string_body> response;
+		ApiUser::Ptr saved = l_User;
+		l_User = l_Root;
+		try { PmRunHttp(http::verb::post, "/v1/objects/apiusers/" + UrlEnc(name.GetData()), body, response); } catch (...) { l_User = saved; throw; }
+		l_User = saved;
+		if (response.result_int() != 200) throw std::runtime_error("pm_urestore via=http: status " + std::to_string(response.result_int()));
+	} else
+		u->RestoreAttribute("permissions");
+	Out("pm_urestore done=1");
+}
+
+// pm_udel name=<hex>: the user object leaves the registry (whoever holds a pointer keeps a live object)
+VOP(pm_udel)
+{
+	String name = HexDec(a.str("name"));
+	ApiUser::Ptr u = PmUserByName(name);
+	if (!u) { Out("pm_udel done=0"); return; }
+	RemoveObject(u);
+	Out("pm_udel done=1");
+}
+
+// pm_copen conn=<n> [cn=<hex>]: a new HttpServerConnection; cn = the CN of a verified client certificate (what ApiListener
+// passes as identity with authenticated = true)
+VOP(pm_copen)
+{
+	InitOnce();
+	signal(SIGPIPE, SIG_IGN);
+	(void)IoEngine::Get();
+	int id = (int)a.num("conn", 0);
+	if (l_Conns.count(id)) throw std::runtime_error("pm_copen: connection exists");
+	std::unique_ptr<PmConn> c(new PmConn());
+	int sv[2];
+	if (socketpair(AF_UNIX, SOCK_STREAM, 0, sv) != 0) throw std::runtime_error("socketpair");
+	c->fd = sv[1];
+	struct timeval tv = { 20, 0 };
+	setsockopt(c->fd, SOL_SOCKET, SO_RCVTIMEO, &tv, sizeof tv);
+	c->io.reset(new boost::asio::io_context());
+	c->stream = Shared<AsioTlsStream>::Make(*c->io, PmServerCtx());
+	c->stream->lowest_layer().assign(boost::asio::ip::tcp::v4(), sv[0]);
+	bool cert = a.has("cn");
+	String identity = cert ? String(HexDec(a.str("cn"))) : String();
+	PmConn *cp = c.get();
+	IoEngine::SpawnCoroutine(*c->io, [cp, cert, identity](boost::asio::yield_context yc) {
+		try {
+			cp->stream->next_layer().async_handshake(boost::asio::ssl::stream_base::server, yc);
+			HttpServerConnection::Ptr server = new HttpServerConnection(identity, cert, cp->stream, *cp->io);
+			server->Start();
+		} catch (const std::exception& ex) {
+			cp->serverFailure = ex.what();
+		}
+		std::unique_lock<std::mutex> lock(cp->m);
+		cp->constructed = true;
+		cp->cv.notify_all();
+	});
+	c->server = std::thread([cp]() {
+		try { cp->io->run(); } catch (const std::exception& ex) { cp->serverFailure = ex.what(); }
+	});
+	c->ctx = SSL_CTX_new(TLS_client_method());
+	c->ssl = SSL_new(c->ctx);
+	SSL_set_fd(c->ssl, c->fd);
+	if (SSL_connect(c->ssl) != 1) { PmDestroyConn(*c); throw std::runtime_error("pm_copen: TLS handshake failed"); }
+	c->clientOpen = true;
+	{
+		// the script goes on only when the server side exists: the constructor looks the certificate's user up NOW, not after a later op
+		std::unique_lock<std::mutex> lock(c->m);
+		if (!c->cv.wait_for(lock, std::chrono::seconds(30), [&] { return c->constructed; })) { lock.unlock(); PmDestroyConn(*c); throw std::runtime_error("pm_copen: server side did not come up"); }
+	}
+	l_Conns[id] = std::move(c);
+}
+
+// pm_creq conn=<n> hdr=none|b:<hex of user:password>|o:<hex of the raw header value> ptype=hosts|services [name=<hex>] [close=1]
+//   + query parameters: GET /v1/objects/<type> on the connection
+VOP(pm_creq)
+{
+	auto it = l_Conns.find((int)a.num("conn", 0));
+	if (it == l_Conns.end()) throw std::runtime_error("pm_creq: no such connection");
+	PmConn& c = *it->second;
+	if (!c.clientOpen) { Out("pm_creq closed"); return; }
+	std::string target = "/v1/objects/" + a.str("ptype", "hosts");
+	if (a.has("name")) target += "/" + UrlEnc(HexDec(a.str("name")));
+	std::string body = JsonEncode(BuildQuery(a)).GetData();
+	std::string hdr = a.str("hdr", "none");
+	bool wantClose = a.num("close", 0) != 0;
+	std::ostringstream rq;
+	rq << "GET " << target << " HTTP/1.1\r\nHost: localhost\r\nAccept: application/json\r\n";
+	if (hdr.compare(0, 2, "b:") == 0) rq << "Authorization: Basic " << Base64::Encode(String(HexDec(hdr.substr(2)))).GetData() << "\r\n";
+	else if (hdr.compare(0, 2, "o:") == 0) rq << "Authorization: " << HexDec(hdr.substr(2)) << "\r\n";
+	if (wantClose) rq << "Connection: close\r\n";
+	rq << "Content-Length: " << body.size() << "\r\n\r\n" << body;
+	std::string text = rq.str();
+	int code = 0;
+	bool closeHdr = false;
+	std::string rbody;
+	if (SSL_write(c.ssl, text.data(), (int)text.size()) <= 0 || !PmReadResponse(c, code, closeHdr, rbody)) {
+		PmCloseClient(c);
+		Out("pm_creq closed");
+		return;
+	}
+	std::ostringstream o;
+	o << "pm_creq code=";
+	if (code == 200) o << "ok"; else o << code;
+	if (code == 200) {
+		std::vector<std::string> objs;
+		std::string tname = a.str("ptype", "hosts") == "services" ? "Service" : "Host";
+		Dictionary::Ptr rb;
+		try { rb = JsonDecode(rbody); } catch (const std::exception&) {}
+		Array::Ptr results = rb ? Array::Ptr(rb->Get("results")) : Array::Ptr();
+		if (results) {
+			ObjectLock olock(results);
+			for (const Dictionary::Ptr& r : results) objs.push_back(tname + ":" + HexEnc(String(r->Get("name")).GetData()));
+		}
+		o << " objs=" << JoinSorted(objs);
+	}
+	if (closeHdr || wantClose) {
+		// the server announced the end of the connection (or was asked for it): does it really end?
+		char tmp[64];
+		errno = 0;
+		int n = SSL_read(c.ssl, tmp, sizeof tmp);
+		bool eof = false;
+		if (n <= 0) {
+			int e = SSL_get_error(c.ssl, n);
+			// close_notify, or the transport ended; NOT: the receive timeout expired while the server kept the connection
+			eof = e == SSL_ERROR_ZERO_RETURN || e == SSL_ERROR_SSL || (e == SSL_ERROR_SYSCALL && errno != EAGAIN && errno != EWOULDBLOCK);
+		}
+		o << " eof=" << (eof ? 1 : 0);
+		PmCloseClient(c);
+	}
+	Out(o.str());
+}
+
+// pm_cclose conn=<n>
+VOP(pm_cclose)
+{
+	auto it = l_Conns.find((int)a.num("conn", 0));
+	if (it == l_Conns.end()) return;
+	PmDestroyConn(*it->second);
+	if (!it->second->serverFailure.empty()) { std::string f = it->second->serverFailure; l_Conns.erase(it); throw std::runtime_error("pm_cclose: server side failed: " + f); }
+	l_Conns.erase(it);
+}
+
 namespace {
 struct PmCaseEnd {
 	PmCaseEnd() {
 		RegisterCaseEnd([]() {
+			// round 6: connections, additional users (no-ops unless the case used them)
+			for (auto& kv : l_Conns) PmDestroyConn(*kv.second);
+			l_Conns.clear();
+			for (auto& u : l_AUsers) { if (u != l_User && ApiUser::GetByName(u->GetName()) == u) RemoveObject(u); }
+			if (l_User && ApiUser::GetByName(l_User->GetName()) != l_User) l_User = nullptr;   // already removed by pm_udel
+			l_AUsers.clear();
 			// services first, then hosts, then the user
 			for (auto it = l_Objs.rbegin(); it != l_Objs.rend(); ++it)
 				if ((*it)->GetReflectionType()->GetName() == "Service") RemoveObject(*it);
